@@ -3,6 +3,7 @@ over the product of executable name x argc x buildpack.toml x CNB_* presence x b
 pre-existing outputs, judged by a decision table written from the statement."""
 import itertools
 import os
+import zlib
 import tomllib
 
 import phase
@@ -44,7 +45,9 @@ def toml_text(kind):
 
 def launch_spec(r):
     return {"processes": [{"type": r.choice(["web", "worker"]), "command": ["run", r.choice(tomlw.RND_STRINGS)], "args": [r.choice(tomlw.RND_STRINGS)], "default": r.random() < 0.5}],
-            "labels": [[r.choice(tomlw.RND_STRINGS), r.choice(tomlw.RND_STRINGS)]]}
+            "labels": [[r.choice(tomlw.RND_STRINGS), r.choice(tomlw.RND_STRINGS)]],
+            # (slices, some of them repeated; "plural": everything goes through the batch setters processes() / labels() / slices())
+            "slices": [r.choice([["a/*"], ["b", "c/**"], ["a/*"], [r.choice(tomlw.RND_STRINGS)]]) for _ in range(r.choice([0, 0, 1, 3, 5]))], "plural": r.random() < 0.5}
 
 
 def make_script(cfg, r, lay):
@@ -76,6 +79,9 @@ def make_script(cfg, r, lay):
 
 def prepare(lay, cfg):
     vp.rmtree(lay.root)
+    # both ways of getting a main: the direct call of libcnb_runtime and the buildpack_main! macro (a property of the configuration's text,
+    # so that it is independent of every factor of the product)
+    lay.exe = "vpbpm" if zlib.crc32(repr(sorted((k, repr(v)) for k, v in cfg.items())).encode()) % 2 else "vpbp"
     lay.create(NAMES)
     if cfg.get("real_build_file"):
         # the layout `cargo libcnb package` produces: bin/build is the executable itself, every other name is a link to it
@@ -83,9 +89,9 @@ def prepare(lay, cfg):
         bindir = os.path.join(lay.bp, "bin")
         for n in NAMES:
             os.unlink(os.path.join(bindir, n))
-        master = os.path.join(os.path.dirname(lay.root), ".vpbp-copy-%d" % os.getpid())      # one copy per worker, hard-linked per case
+        master = os.path.join(os.path.dirname(lay.root), ".%s-copy-%d" % (lay.exe, os.getpid()))      # one copy per worker, hard-linked per case
         if not os.path.exists(master):
-            shutil.copy2(os.path.join(vp.BIN, "vpbp"), master)
+            shutil.copy2(os.path.join(vp.BIN, lay.exe), master)
         os.link(master, os.path.join(bindir, "build"))
         for n in NAMES:
             if n != "build":
@@ -295,7 +301,7 @@ def run_cfg(lay, cfg, idx, seed, sh):
             try:
                 got = c07.read_launch(tomllib.loads(post[b"layers/launch.toml"][2].decode()))
                 want = {"processes": [{"type": p["type"], "command": p["command"], "args": p["args"], "default": p["default"], "wd": None} for p in b["launch"]["processes"]],
-                        "labels": b["launch"]["labels"], "slices": []}
+                        "labels": b["launch"]["labels"], "slices": b["launch"].get("slices", [])}
                 if got != want:
                     sh.violation("launch:content", "%s: launch.toml reads %r, returned %r" % (what, got, want), case)
                     return
@@ -367,6 +373,68 @@ def with_beh(front, r, beh=None):
     return c
 
 
+def inproc_shard(arg):
+    """libcnb exposes the two phase functions for programmatic use: several calls in ONE process, each with its own environment. A call
+    whose mandatory input is missing is an error that does not reach the buildpack code - whatever an earlier call of the process was given."""
+    import json
+    import subprocess
+    seqs, seed, work = arg
+    sh = vp.Shard()
+    for seq in seqs:
+        r = vp.rng(seed, "c05-inproc", seq)
+        root = os.path.join(work, "inproc-%d-%d" % (os.getpid(), seq))
+        invs, wants = [], []
+        try:
+            for k in range(r.randint(2, 5)):
+                lay = phase.Layout(os.path.join(root, "inv%d" % k))
+                lay.create()
+                with open(os.path.join(lay.bp, "buildpack.toml"), "w") as f:
+                    f.write(phase.BP_TOML_OK)
+                os.makedirs(os.path.join(lay.platform, "env"))
+                ph = r.choice(["detect", "build"])
+                with open(lay.plan, "w") as f:
+                    f.write('[[entries]]\nname = "x"\n' if ph == "build" else "")
+                beh = r.choice(["pass", "fail", "plan"]) if ph == "detect" else "ok"
+                missing = r.choice([None, None, None, "CNB_BUILDPACK_DIR", "CNB_TARGET_OS", "CNB_TARGET_ARCH", "CNB_TARGET_DISTRO_NAME", "CNB_TARGET_DISTRO_VERSION"]) if k else None
+                env = dict(lay.env())
+                if missing:
+                    del env[missing]
+                script = {"marker": lay.marker, "detect": {"result": beh, "plan": [["provides", "x"]]}, "build": {"result": "ok", "launch": None, "store": None, "build_sboms": [], "launch_sboms": [], "order": ["launch", "store", "bsbom", "lsbom"]}}
+                result = os.path.join(lay.root, "result.json")
+                invs.append({"phase": ph, "env": [[a, b] for a, b in env.items()], "unset": [missing] if missing else [], "cwd": lay.app,
+                             "args": lay.detect_args() if ph == "detect" else lay.build_args(), "script": script, "result": result})
+                wants.append({"lay": lay, "phase": ph, "beh": beh, "missing": missing, "result": result})
+            planfile = os.path.join(root, "inproc.json")
+            with open(planfile, "w") as f:
+                json.dump({"invocations": invs}, f)
+            p = subprocess.run([os.path.join(vp.BIN, "vpbp")], env={"PATH": "/usr/bin:/bin", "VPBP_INPROC": planfile}, stdout=subprocess.PIPE, stderr=subprocess.PIPE, timeout=60)
+            case = {"kind": "inproc", "seq": seq, "calls": [(w["phase"], w["beh"], w["missing"]) for w in wants]}
+            for k, w in enumerate(wants):
+                sh.evaluations += 1
+                sh.count("route_inproc")
+                what = "call #%d (%s, %s) of %d programmatic calls in one process%s" % (k, w["phase"], w["beh"], len(wants), ", %s unset for this call" % w["missing"] if w["missing"] else "")
+                if not os.path.exists(w["result"]):
+                    sh.violation("inproc:no-result", "%s: the process ended before the call returned (exit %d): %s" % (what, p.returncode, p.stderr.decode(errors="replace")[-300:]), case)
+                    break
+                got = json.load(open(w["result"]))
+                marker = open(w["lay"].marker).read().split("\n")[:-1] if os.path.exists(w["lay"].marker) else []
+                ran = [m for m in marker if m in ("detect", "build")]
+                if w["missing"]:
+                    if "err" not in got or ran:
+                        sh.violation("inproc:missing-input-accepted:%s" % w["missing"], "%s: returned %r and the buildpack code ran %r - expected an error before the buildpack code" % (what, got, ran), case)
+                        break
+                    sh.nontrivial.add(("inproc", w["phase"], "missing", w["missing"], k))
+                    continue
+                want_code = {"pass": 0, "plan": 0, "fail": 100, "ok": 0}[w["beh"]]
+                if got.get("code") != want_code or ran != [w["phase"]]:
+                    sh.violation("inproc:result", "%s: returned %r (expected code %d), buildpack code ran %r" % (what, got, want_code, ran), case)
+                    break
+                sh.nontrivial.add(("inproc", w["phase"], w["beh"], k, bool(k and wants[k - 1]["missing"])))
+        finally:
+            vp.rmtree(root)
+    return sh.dict()
+
+
 def shard_run(arg):
     items, seed, work = arg
     sh = vp.Shard()
@@ -413,6 +481,9 @@ def run(tier, seed, work):
                     cfgs.append({"name": name, "argc": 2, "toml": "ok", "envmask": [True] * 5, "platform": "ok", "pre": False, "unwritable": out, "beh": b})
     # every one of these again with the output being a directory (store.toml excepted: it is also an input, read before the buildpack code runs)
     cfgs += [dict(c, unwritable_kind="dir") for c in cfgs if c.get("unwritable") and c["unwritable"] != "store.toml"]
+    for d in vp.pmap(inproc_shard, [(sq, seed, work) for sq in vp.split(range(160 if tier == "quick" else 3000), vp.NCPU)]):
+        res.merge(d)
+    res.required = ["route_inproc"]
     items = list(enumerate(cfgs))
     for d in vp.pmap(shard_run, [(s, seed, work) for s in vp.split(items, vp.NCPU * 2)]):
         res.merge(d)
